@@ -88,15 +88,40 @@ class Match(SVal):
         return True
 
 
+RE_ESCAPE = z3.Function("re_escape", z3.StringSort(), z3.StringSort())
+
+
 class ReMod(SVal):
+    def meth_escape(self, cx, s):
+        if isinstance(s, str):
+            import re
+
+            return re.escape(s)
+        return SStr(RE_ESCAPE(s.t))
+
+    def meth_compile(self, cx, pat):
+        mod = self
+
+        class Compiled(SVal):
+            def meth_match(self2, cx2, s):
+                return mod.meth_match(cx2, pat, s)
+
+        return Compiled()
+
     def meth_match(self, cx, pat, s):
         st = s.t if isinstance(s, SStr) else z3.StringVal(s)
         if isinstance(pat, str):
             return SMaybe(z3.Not(RX.match_prefix(pat, st)), Match())
         parts = decompose(pat.t)
         a = cx.ghost["ff"]
-        for kind, x in parts:
-            if kind == "lit":
+        # re.escape(name) inside a pattern matches exactly the text of name (T2 re): a literal part without any condition on its characters
+        parts = [("lit*", x.arg(0)) if kind == "lit" and z3.is_app(x) and x.decl().name() == "re_escape" else (kind, x) for kind, x in parts]
+        for i, (kind, x) in enumerate(parts):
+            if kind == "lit*":
+                if not z3.eq(x, a.name_t):
+                    raise Unsupported(f"pattern contains a symbolic part other than the record name: {x} in {parts}")
+                parts[i] = ("lit", x)
+            elif kind == "lit":
                 if not z3.eq(x, a.name_t):
                     raise Unsupported(f"pattern contains a symbolic part other than the record name: {x} in {parts}")
                 # literal-safety of the name inside a pattern: an obligation, not an assumption
